@@ -243,8 +243,46 @@ def twins(draw):
 
 
 @st.composite
+def near_contained(draw):
+    """A short mesh pattern q and a longer one p (two or three more points) built around an
+    occurrence of q: p's shading is the union of the regions of q's shaded cells (so p contains q
+    as a mesh pattern and is redundant) with zero to two cells taken out and a few added (taking one
+    out of a region, in particular out of the middle of a tall or wide one, makes p irredundant)."""
+    q = tuple(draw(gen.perms(1, 2)))
+    k = len(q)
+    n = k + draw(st.integers(2, 3))
+    cands = [t for t in ref.perms(n) if ref.contains(t, q)]
+    t = draw(st.sampled_from(cands))
+    o = draw(st.sampled_from(ref.occ(q, t)))
+    cellsq = [(x, y) for x in range(k + 1) for y in range(k + 1)]
+    R = draw(st.lists(st.sampled_from(cellsq), min_size=1, max_size=3, unique=True))
+    idxs = sorted(o)
+    vals = sorted(t[i] for i in idxs)
+    col_lo, col_hi = [-1] + idxs, idxs + [n]
+    row_lo, row_hi = [-1] + vals, vals + [n]
+    S = set()
+    for x, y in R:
+        S |= {(cx, cy) for cx in range(col_lo[x] + 1, col_hi[x] + 1) for cy in range(row_lo[y] + 1, row_hi[y] + 1)}
+    region = sorted(S)
+    for _ in range(draw(st.integers(0, 2))):
+        if region:
+            S.discard(draw(st.sampled_from(region)))
+    allc = [(x, y) for x in range(n + 1) for y in range(n + 1)]
+    for c in draw(st.lists(st.sampled_from(allc), max_size=2)):
+        S.add(c)
+    return [[list(q), sorted(list(c) for c in R)], [list(t), sorted(list(c) for c in S)]]
+
+
+@st.composite
 def basis_cases(draw):
-    mode = draw(st.sampled_from(["classical", "classical", "mixed", "mixed", "nested", "twins", "erdos_szekeres"]))
+    mode = draw(st.sampled_from(["classical", "classical", "mixed", "mixed", "nested", "twins", "erdos_szekeres", "near_contained"]))
+    if mode == "near_contained":
+        patts = draw(near_contained())
+        if draw(st.booleans()):
+            patts.append(draw(json_patterns(2)))
+        if draw(st.booleans()):
+            patts.reverse()
+        return {"patts": patts, "n": 5}
     if mode == "erdos_szekeres":
         # an increasing and a decreasing pattern plus patterns around the Erdos-Szekeres bound
         # (a-1)(b-1) that avoid both: the finite-class boundary
